@@ -245,17 +245,12 @@ void Provider::update(const Service &service)
     // service uses a different name - if so, it must first be confirmed (if
     // the hostname changes after all, onHostnameChanged() takes over)
     if (!d->srvProposed.target().isEmpty()) {
-        if (!d->confirmed || fqName != d->srvRecord.name()) {
+        // (a probe that is still pending - for a previously requested name or
+        // because the hostname changed - is superseded by a new one, so that
+        // its handler withdraws the records being replaced before publishing)
+        if (!d->confirmed || fqName != d->srvRecord.name() || d->prober) {
             d->confirm();
         } else {
-
-            // The service is already confirmed under this name; a probe that
-            // is still pending for a previously requested name is obsolete
-            // and must not replace these records when it completes
-            if (d->prober) {
-                delete d->prober;
-                d->prober = nullptr;
-            }
             d->publish();
         }
     }
